@@ -251,7 +251,9 @@ func (e *Env) binary(x EBinary) EVal {
 	case "==>":
 		a := e.eval(x.X)
 		e.wantSort(a, SBool, "==>")
-		// antecedent is evaluated in the opposite mode for quantifiers: not supported there
+		if isFalse(a.T) {
+			return EVal{T: True} // short-circuit: the consequent may not be evaluable on this path
+		}
 		b := e.eval(x.Y)
 		e.wantSort(b, SBool, "==>")
 		return EVal{T: Implies(a.T, b.T)}
@@ -261,13 +263,21 @@ func (e *Env) binary(x EBinary) EVal {
 		e.wantSort(b, SBool, "<==>")
 		return EVal{T: Eq(a.T, b.T)}
 	case "&&":
-		a, b := e.eval(x.X), e.eval(x.Y)
+		a := e.eval(x.X)
 		e.wantSort(a, SBool, "&&")
+		if isFalse(a.T) {
+			return EVal{T: False}
+		}
+		b := e.eval(x.Y)
 		e.wantSort(b, SBool, "&&")
 		return EVal{T: And(a.T, b.T)}
 	case "||":
-		a, b := e.eval(x.X), e.eval(x.Y)
+		a := e.eval(x.X)
 		e.wantSort(a, SBool, "||")
+		if isTrue(a.T) {
+			return EVal{T: True}
+		}
+		b := e.eval(x.Y)
 		e.wantSort(b, SBool, "||")
 		return EVal{T: Or(a.T, b.T)}
 	}
